@@ -31,6 +31,8 @@ Logged ==
   \/ IsEvent("inject") /\ Signal(Ev.p, Ev.sig) /\ UNCHANGED pending
   \/ IsEvent("paused") /\ UNCHANGED <<vars, pending>>      \* the process is stopped before a statement (preemption by the harness)
   \/ IsEvent("resumed") /\ UNCHANGED <<vars, pending>>
+  (* the harness waited long enough after sending a signal to a live process: it has been delivered *)
+  \/ IsEvent("deadline") /\ pending[Ev.p] = NONE /\ UNCHANGED <<vars, pending>>
   \/ IsEvent("extsignal") /\ pending' = [pending EXCEPT ![Ev.p] = Ev.sig] /\ UNCHANGED vars
   \/ /\ IsEvent("exit") /\ pc[Ev.p] = "dead" /\ rc[Ev.p] = Ev.rc
      /\ (Ev.obs =>
